@@ -41,7 +41,7 @@ impl Check for C04 {
         "C04"
     }
     fn ncases(&self, tier: Tier) -> u64 {
-        tier.sz(2500, 30000)
+        tier.sz(10000, 120000)
     }
     fn rule(&self) -> &'static str {
         "one conflict-free grammar with only productive rules per case (random LR(1), LR(1)-not-LALR templates, lookahead squares, gc seeds: merged-state-heavy on purpose); inputs: 1-3-edit mutants of sampled sentences, every kind of proper prefix (end-of-input errors), random strings, the empty input; each rejected input parsed with recovery off (exactly one error, no value, at the first non-viable lexeme per an Earley viable-prefix oracle; end-of-input errors are zero-length at the end of the last lexeme) and with CPCT+ on (first error at the same lexeme). Non-trivial = error index > 0 or at end of a non-empty input; distinct by (grammar, input)."
@@ -50,7 +50,7 @@ impl Check for C04 {
         vec!["viable prefixes are decided by the harness's Earley recogniser on the abstract grammar", "preconditions (conflict-free table, all rules productive, no derivation cycle) are evaluated by the harness; other grammars are skipped and counted"]
     }
     fn floor(&self, tier: Tier) -> u64 {
-        tier.sz(5000, 50000)
+        tier.sz(20000, 200000)
     }
     fn required_counters(&self, _t: Tier) -> Vec<&'static str> {
         vec!["rejected_inputs", "errors_at_first_lexeme", "errors_in_middle", "errors_at_eof", "errors_after_reductions_on_bad_lookahead", "recovery_on_checked"]
